@@ -8,7 +8,8 @@ import Bng.Model.Index
     new submgr | new statestore lease|session|sub|nat | new memstore     => ok
     create <pN|-> <mK|-> <aK|->     => ok pN | conflict | error      (`-` id: the code generates the id)
     update pN <mK|-> <aK|->         => ok | notfound                 (state.Store only)
-    assign pN aK                    => ok | notfound                 (subscriber.Manager only)
+    assign pN aK                    => ok | notfound | gone          (subscriber.Manager only; gone: the session is being
+                                        terminated, the address was handed back)
     delete pN                       => ok | notfound | busy          (busy: "already terminating", subscriber.Manager)
     tpark pN                        => parked | ok | notfound | busy (subscriber.Manager: TerminateSession started and
                                         held inside allocator.ReleaseIPv4, i.e. between its two critical sections;
@@ -63,6 +64,7 @@ def showObs : Obs → String
   | .parked => "parked"
   | .busy => "busy"
   | .noref => "noref"
+  | .gone => "gone"
   | .found id r => showRec id r
   | .ids l => if l.isEmpty then "-" else ",".intercalate (l.map fun id => s!"p{id}")
   | .badop => "badop"
